@@ -54,7 +54,7 @@ BASES = [
 def plan(tier, seed):
     nb = 1 if tier == "quick" else 3
     specs = [{"kind": "exhaustive", "base": b, "part": p, "parts": 8} for b in range(nb) for p in range(8)]
-    n = 2000 if tier == "quick" else 100000
+    n = 6000 if tier == "quick" else 400000
     specs += [{"kind": "random", "start": p * (n // NSHARDS), "count": n // NSHARDS} for p in range(NSHARDS)]
     return specs
 
